@@ -301,9 +301,12 @@ def zernike_fit(opd, mask, modes, normalize=True, rho=None, theta=None):
 
     basis = zernike_basis(mask, modes, True, normalize, rho, theta)
 
-    basis = np.linalg.pinv(basis)
+    # the fit is over the samples inside the mask only; whatever the OPD array
+    # holds elsewhere (a fill value, NaN) is not part of it
+    inside = np.flatnonzero(mask)
+    basis = np.linalg.pinv(basis[:, inside])
 
-    return np.einsum('ij,i->j', basis, opd.ravel())
+    return np.einsum('ij,i->j', basis, opd.ravel()[inside])
 
 
 def zernike_remove(opd, mask, modes, rho=None, theta=None):
